@@ -3,6 +3,7 @@ package checks
 import (
 	"encoding/json"
 	"fmt"
+	"os"
 	"runtime/debug"
 	"sort"
 	"strings"
@@ -409,6 +410,11 @@ func (r *c05Runner) transition(path []dml.Op, pre *dml.State, op dml.Op, out *dm
 
 func c05Run(c *core.Ctx) {
 	debug.SetGCPercent(400) // thousands of short-lived csvq process images; the heap stays small
+	if os.Getenv("VERIF_C05_FAMILIES_ONLY") != "" {
+		// development aid: only the families added with core.Extend are run; the result is marked as not exhaustive
+		c.Incomplete("VERIF_C05_FAMILIES_ONLY is set: the main search was skipped")
+		return
+	}
 	dir := core.Scratch("c05")
 	ops := dml.Alphabet(c.Thorough())
 	depth := c05Depth(c)
@@ -473,7 +479,7 @@ func c05Search(c *core.Ctx, dir string, ops []dml.Op, depth int, label string) {
 }
 
 func c05Replay(c *core.Ctx, payload json.RawMessage) {
-	if c05ParallelReplay(c, payload) || c01AttrReplay(c, payload) {
+	if c05ParallelReplay(c, payload) || c01AttrReplay(c, payload) || c05TypedReplay(c, payload) || c05SelfJoinReplay(c, payload) || c05LayReplay(c, payload) {
 		return
 	}
 	var p c05Payload
